@@ -264,6 +264,7 @@ func (cur *FieldMask) addPath(path string, curDesc *thrift_reflection.TypeDescri
 			all := cur.All()
 			ids := []int{}
 			empty := true
+			closed := false
 			// iter indexies...
 			for it.HasNext() {
 				tok := it.Next()
@@ -277,6 +278,7 @@ func (cur *FieldMask) addPath(path string, curDesc *thrift_reflection.TypeDescri
 					if empty {
 						return errPath(tok, "empty index set")
 					}
+					closed = true
 					break
 				}
 				if typ == pathTypeElem {
@@ -302,6 +304,9 @@ func (cur *FieldMask) addPath(path string, curDesc *thrift_reflection.TypeDescri
 
 				id := tok.val.Int()
 				ids = append(ids, id)
+			}
+			if !closed {
+				return errors.New("index set isn't terminated by ']'")
 			}
 
 			if all {
@@ -352,6 +357,7 @@ func (cur *FieldMask) addPath(path string, curDesc *thrift_reflection.TypeDescri
 			isInt := cur.typ == FtIntMap
 			isStr := cur.typ == FtStrMap
 			empty := true
+			closed := false
 			ids := []int{}
 			strs := []string{}
 			for it.HasNext() {
@@ -366,6 +372,7 @@ func (cur *FieldMask) addPath(path string, curDesc *thrift_reflection.TypeDescri
 					if empty {
 						return errPath(tok, "empty key set")
 					}
+					closed = true
 					break
 				}
 				if typ == pathTypeElem {
@@ -402,6 +409,9 @@ func (cur *FieldMask) addPath(path string, curDesc *thrift_reflection.TypeDescri
 				} else {
 					return errPath(tok, "expect integer or string or '*' as key")
 				}
+			}
+			if !closed {
+				return errors.New("key set isn't terminated by '}'")
 			}
 
 			// println("all:", all, "ids:", ids, "strs:", strs, isInt, isStr)
